@@ -624,7 +624,28 @@ MappingUnmarshaller = CastUnmarshaller[tp.Mapping]
 IterableUnmarshaller = CastUnmarshaller[tp.Iterable]
 
 EnumT = tp.TypeVar("EnumT", bound=enum.Enum)
-EnumUnmarshaller = CastUnmarshaller[EnumT]
+
+
+class EnumUnmarshaller(CastUnmarshaller[EnumT], tp.Generic[EnumT]):
+    """Unmarshaller that looks an enum member up by its value.
+
+    Note:
+        The decoded input is tried as the value first (a `str` value such as `"1"`
+        must not be read as a number), then the loaded JSON/literal value.
+
+    See Also:
+        - [`typelib.serdes.decode`][]
+        - [`typelib.serdes.load`][]
+    """
+
+    __slots__ = ()
+
+    def __call__(self, val: tp.Any) -> EnumT:
+        if isinstance(val, self.t):
+            return val
+        with contextlib.suppress(ValueError, TypeError):
+            return self.caster(serdes.decode(val))
+        return self.caster(serdes.load(val))
 
 
 LiteralT = tp.TypeVar("LiteralT")
